@@ -568,11 +568,6 @@ public:
 
 	iterator erase(const_iterator first, const_iterator last)
 	{
-		if (first == begin() && last == end())
-		{
-			clear();
-			return end();
-		}
 		if (first == last)
 		{
 			return IteratorProxy(mHashMultiMap.MakeMutableIterator(
@@ -586,6 +581,11 @@ public:
 				ConstIteratorProxy::GetBaseIterator(first).GetKeyIterator();
 			if (last == ConstIteratorProxy(mHashMultiMap.MakeIterator(keyIter, keyIter->GetCount())))
 				return IteratorProxy(mHashMultiMap.MakeIterator(mHashMultiMap.RemoveKey(keyIter)));
+		}
+		if (first == begin() && last == end())
+		{
+			clear();
+			return end();
 		}
 		throw std::invalid_argument("invalid unordered_multimap erase arguments");
 	}
